@@ -69,7 +69,7 @@ FLEET['G2'] = dict(
         ('E', ['T'], 'default'),
         ('T', ['T', 'mul', 'F'], 'plain'),
     ],
-    values=['node', 'mnode', 'pnode'],
+    values=['node', 'mnode', 'pnode', 'xnode'],
 )
 
 FLEET['G3'] = dict(
@@ -163,11 +163,12 @@ FLEET['G5'] = dict(
 FLEET['G6'] = dict(
     custom_lexer=True,
     terms=[
-        ('item', T('custom', '', 'item', typed=True)),
-        ('sep', T('custom', '', 'sep', typed=True)),
-        ('open', T('custom', '', 'open', typed=True)),
-        ('close', T('custom', '', 'close', typed=True)),
-        ('end', T('custom', '', 'end', typed=True)),
+        # long names sharing a 15-character prefix: terms are told apart by their full names
+        ('item', T('custom', '', 'custom_lexeme_t_item', typed=True)),
+        ('sep', T('custom', '', 'custom_lexeme_t_separator', typed=True)),
+        ('open', T('custom', '', 'custom_lexeme_t_open', typed=True)),
+        ('close', T('custom', '', 'custom_lexeme_t_close', typed=True)),
+        ('end', T('custom', '', 'custom_lexeme_t_end', typed=True)),
     ],
     nterms=['list', 'elem'],
     root='list',
@@ -319,7 +320,7 @@ FLEET['G11'] = dict(
         ('stmt', ['x'], 'plain'),
         ('stmt', ['x', 'y', 'semi'], 'ctx'),
     ],
-    values=['node', 'mnode', 'pnode'],
+    values=['node', 'mnode', 'pnode', 'xnode'],
 )
 
 
@@ -370,6 +371,32 @@ FLEET['G13'] = dict(
         ('stmts', ['stmts', 'stmt'], 'plain'),
         ('blocks', ['blocks', 'block'], 'plain'),
         ('stmt', ['error', 'semi'], 'ctx'),
+    ],
+    values=['node', 'mnode'],
+)
+
+
+# the library's helper functors on the value path: create<> / emplace_back<> build a std::vector of values, _e2 passes
+# one through; a rule with the error symbol discards lists during recovery
+FLEET['G14'] = dict(
+    terms=[
+        ('x', T('char', 'x')),
+        ('lp', T('char', '(')),
+        ('rp', T('char', ')')),
+        ('ls', T('char', '[')),
+        ('rs', T('char', ']')),
+    ],
+    nterms=['root', 'list', 'item'],
+    list_nterms=['list'],
+    root='root',
+    rules=[
+        ('item', ['x'], 'plain'),
+        ('root', ['list'], 'plain'),
+        ('list', [], 'create_list'),
+        ('item', ['lp', 'item', 'rp'], 'e2'),
+        ('list', ['list', 'item'], 'emplace_back'),
+        ('item', ['ls', 'list', 'rs'], 'ctx'),
+        ('item', ['ls', 'error', 'rs'], 'plain'),
     ],
     values=['node', 'mnode'],
 )
